@@ -58,6 +58,8 @@ def value_cases(rng, tier):
         strs.append("".join(rng.choice(chars) for _ in range(rng.randint(0, 8))))
     for s in strs:
         out.append({"expr": sqf_string(s), "kind": "string", "chars": list(s)})
+        # the same characters spelled between single quotes (a doubled single quote denotes one)
+        out.append({"expr": "'" + s.replace("'", "''") + "'", "kind": "string", "chars": list(s)})
     for b in ("true", "false"):
         out.append({"expr": b, "kind": "bool"})
     nums = ["0", "1", "-1", "0.5", "123456", "-123456", "1.5", "0.000123", "1e6", "1e7", "123456e3", "1e-5", "99999.9", "0.1", "3.14159", "-0",
